@@ -26,4 +26,7 @@ VARIANTS = [
     V("N-union-reordered", A, "    union = shp1.area + shp2.area - intersection\n", "    union = shp2.area - intersection + shp1.area\n", None),
     V("N-keyword-buffers", A, "    geometry1 = _prepare_geometry(geometry1, time_buffer, freq_buffer)\n", "    geometry1 = _prepare_geometry(geometry1, freq_buffer=freq_buffer, time_buffer=time_buffer)\n", None),
     V("N-zero-union-truthiness", "src/soundevent/evaluation/affinity.py", "    if union == 0:\n        return 0\n\n    return min(intersection / union, 1.0)", "    if not union:\n        return 0\n\n    ratio = intersection / union\n    return 1.0 if ratio > 1.0 else ratio", None),
+    # wave 6: what the affinity is computed through
+    V("bbox-corners-rounded(C03/R03.3)", "src/soundevent/data/geometries.py", "        return [start_time, low_freq, end_time, high_freq]", "        return [round(start_time, 6), round(low_freq, 6), round(end_time, 6), round(high_freq, 6)]", "C03/R03.3"),
+    V("polygon-holes-dropped(C05/R05.2)", "src/soundevent/geometry/conversion.py", "    shell = geom.coordinates[0]\n    holes = geom.coordinates[1:]", "    shell = geom.coordinates[0]\n    holes = []", "C05/R05.2"),
 ]
